@@ -56,8 +56,11 @@ Definition tins (x : timer) (l : list timer) : list timer :=
 (* ---- TimerRegistry ---- *)
 Record reg := { r_ups : ups; r_wm : Z; r_timers : list timer }.
 
-(* the cached watermark starts as the zero time.Time, NOT as the minimum of the table *)
+(* the cached watermark starts at the epoch, the minimum of the freshly initialised table (since the repair
+   9b0e491; before it the field was left at the zero time.Time, year 1: reg_new_before_fix) *)
 Definition reg_new (ids : list N) : reg :=
+  {| r_ups := ups_init ids; r_wm := epoch; r_timers := [] |}.
+Definition reg_new_before_fix (ids : list N) : reg :=
   {| r_ups := ups_init ids; r_wm := go_zero_time; r_timers := [] |}.
 
 (* SetTimer: if !r.watermark.Before(t) { return }; r.store.Put(key, t) *)
@@ -67,7 +70,7 @@ Definition set_timer (r : reg) (k : N) (t : Z) : reg :=
 (* first half of AdvanceWatermark (eager): table update, composite, cache *)
 Definition reg_note (r : reg) (s : N) (p : pbts) : reg :=
   let u := ups_set (r_ups r) s (as_time p) in
-  let c := match ups_min u with Some c => c | None => go_zero_time end in
+  let c := match ups_min u with Some c => c | None => epoch (* unreachable: u contains s; MinFunc would panic *) end in
   {| r_ups := u; r_wm := c; r_timers := r_timers r |}.
 
 (* the returned iterator, fully drained with no interleaved SetTimer: GetEarliest / After(composite) / Delete *)
@@ -109,8 +112,8 @@ Fixpoint reg_trace (r : reg) (ops : list rop) : list (list timer * Z) :=
 (* ---- SPECIFICATION of the composite watermark, from the message history alone ----
    msgs = the watermark messages handled so far, oldest first, as (sender, instant).
    A configured runner that has not reported counts as the epoch; an unknown sender takes part from its
-   first message on.  Before the very first watermark message the registry's cached value is the zero
-   time.Time (year 1), which is below the epoch. *)
+   first message on; only the most recent message of a sender counts.  The composite is the minimum over all
+   participants (the epoch when there is no participant at all: no configured runner, no message yet). *)
 Definition last_of (msgs : list (N * Z)) (s : N) : option Z :=
   fold_left (fun acc m => if (fst m =? s)%N then Some (snd m) else acc) msgs None.
 
@@ -121,14 +124,11 @@ Definition participants (ids : list N) (msgs : list (N * Z)) : list N := ids ++ 
 
 Definition zmin_list (d : Z) (l : list Z) : Z := fold_left Z.min l d.
 
-Definition spec_min (ids : list N) (msgs : list (N * Z)) : Z :=
+Definition spec_composite (ids : list N) (msgs : list (N * Z)) : Z :=
   match map (latest msgs) (participants ids msgs) with
-  | [] => go_zero_time
+  | [] => epoch
   | x :: r => zmin_list x r
   end.
-
-Definition spec_composite (ids : list N) (msgs : list (N * Z)) : Z :=
-  match msgs with [] => go_zero_time | _ => spec_min ids msgs end.
 
 Fixpoint rop_msgs (ops : list rop) : list (N * Z) :=
   match ops with
